@@ -1653,3 +1653,152 @@ func init() {
 	generators["heap"] = genHeap
 	generators["retain"] = genRetain
 }
+
+// ---- C09: row values -------------------------------------------------------------------------
+
+var valueLetters = []byte("bsiltvyufd")
+
+// genGoodVal: a value the column's codec accepts, boundary-heavy; "n"/"N"/"V" are the NULL forms.
+func genGoodVal(r *rand.Rand, letter byte, big bool) string {
+	switch r.Intn(9) {
+	case 0:
+		return "n"
+	case 1:
+		return "N"
+	case 2:
+		return "V"
+	}
+	bytesOf := func() []byte {
+		switch r.Intn(8) {
+		case 0:
+			return []byte{}
+		case 1:
+			return []byte{0}
+		case 2:
+			return []byte{0xff, 0xff, 0xff, 0xff}
+		case 3:
+			if big {
+				return randBytes(r, 65530+r.Intn(12), false)
+			}
+			return randBytes(r, 250+r.Intn(10), false)
+		case 4:
+			return []byte("\\x00'\"\n\t,é")
+		}
+		return randBytes(r, r.Intn(9), false)
+	}
+	switch letter {
+	case 'b':
+		return "b" + strconv.Itoa(r.Intn(2))
+	case 's':
+		return "i" + strconv.FormatInt([]int64{0, 1, -1, 32767, -32768, 255, 256, -129, int64(r.Intn(65536) - 32768)}[r.Intn(9)], 10)
+	case 'i':
+		return "i" + strconv.FormatInt([]int64{0, 1, -1, 2147483647, -2147483648, 65536, -65537, 16777216, int64(int32(r.Uint32()))}[r.Intn(9)], 10)
+	case 'l':
+		return "i" + strconv.FormatInt([]int64{0, 1, -1, 9223372036854775807, -9223372036854775808, 4294967296, -4294967297, 1000000000000000000, int64(r.Uint64())}[r.Intn(9)], 10)
+	case 't', 'v':
+		return "t" + hex.EncodeToString(bytesOf())
+	case 'y':
+		return "y" + hex.EncodeToString(bytesOf())
+	case 'u':
+		switch r.Intn(4) {
+		case 0:
+			return "u00000000000000000000000000000000"
+		case 1:
+			return "uffffffffffffffffffffffffffffffff"
+		}
+		return "u" + hex.EncodeToString(randBytes(r, 16, false))
+	case 'f':
+		bits := []uint32{0, 0x80000000, 0x3f800000, 0x7f800000, 0xff800000, 0x7fc00000, 1, 0x7f7fffff, r.Uint32()}
+		return "f" + hex.EncodeToString(be32(bits[r.Intn(len(bits))]))
+	case 'd':
+		bits := []uint64{0, 0x8000000000000000, 0x3ff0000000000000, 0x7ff0000000000000, 0xfff0000000000000, 0x7ff8000000000000, 1, 0x7fefffffffffffff, r.Uint64()}
+		b := bits[r.Intn(len(bits))]
+		return "d" + hex.EncodeToString(append(be32(uint32(b>>32)), be32(uint32(b))...))
+	}
+	return "n"
+}
+
+// genValues (C09): one statement returning 0..5 rows over 1..6 columns of every supported
+// type, fetched by a simple query (text) or through Parse/Bind/Describe/Execute with result
+// formats none / one for all / one per column; values at the type boundaries, empty and
+// 64 KiB-crossing strings, the three NULL forms in every position.
+func genValues(r *rand.Rand, id string) *Case {
+	c := baseCase(id, "values")
+	in := plainStartup("u")
+	simple := r.Intn(3) == 0
+	big := r.Intn(12) == 0
+	if big {
+		c.L = 1 << 20
+	}
+	ncols := 1 + r.Intn(6)
+	var rf []uint16
+	if !simple {
+		switch r.Intn(4) {
+		case 0:
+		case 1:
+			rf = []uint16{uint16(r.Intn(2))}
+		default:
+			rf = make([]uint16, ncols)
+			for i := range rf {
+				rf[i] = uint16(r.Intn(2))
+			}
+		}
+	}
+	rfmt := func(i int) uint16 {
+		switch len(rf) {
+		case 0:
+			return 0
+		case 1:
+			return rf[0]
+		}
+		return rf[i]
+	}
+	letters := make([]byte, ncols)
+	colspec := make([]string, ncols)
+	fmts := make([]string, ncols)
+	for i := range letters {
+		pool := valueLetters
+		if rfmt(i) == 0 {
+			pool = valueLetters[:8] // float text format is outside the Lean model
+		}
+		letters[i] = pool[r.Intn(len(pool))]
+		colspec[i] = string(letters[i])
+		fmts[i] = strconv.Itoa(int(rfmt(i)))
+	}
+	nrows := r.Intn(6)
+	var ops, rows []string
+	for k := 0; k < nrows; k++ {
+		vals := make([]string, ncols)
+		allNull := r.Intn(10) == 0
+		for i := range vals {
+			if allNull {
+				vals[i] = []string{"n", "N", "V"}[r.Intn(3)]
+			} else {
+				vals[i] = genGoodVal(r, letters[i], big)
+			}
+		}
+		rows = append(rows, strings.Join(vals, ","))
+		ops = append(ops, "r:"+strings.Join(vals, ","))
+	}
+	ops = append(ops, "c:"+hxs("SELECT "+strconv.Itoa(nrows)))
+	script := strings.Join(colspec, ",") + "//" + strings.Join(ops, ";") + "/ok"
+	if simple {
+		in = append(in, msgQuery(script)...)
+	} else {
+		in = append(in, msgParse("", script, nil)...)
+		in = append(in, msgBind("", "", nil, nil, rf)...)
+		in = append(in, msgDescribe('P', "")...)
+		in = append(in, msgExecute("", 0)...)
+		in = append(in, msgSync()...)
+	}
+	c.In = in
+	if !big {
+		c.Cuts = randCuts(r, len(in))
+	}
+	c.Extra["vcols"] = "=" + string(letters)
+	c.Extra["vfmt"] = "=" + strings.Join(fmts, ",")
+	c.Extra["vrows"] = "=" + strings.Join(rows, "|")
+	return c
+}
+
+func init() { generators["values"] = genValues }
